@@ -1,6 +1,8 @@
 // Engine `tree`: C01 (AVL), C02 (red-black), C03 (iterators and destructive tear-down with interruption).
 #include "core/core.h"
 #include "core/driver.h"
+#include <sys/mman.h>
+#include <cstddef>
 #include <map>
 #include <climits>
 #include <set>
@@ -131,8 +133,9 @@ template <class T> struct TreeSim
     TreeSim(Ctx &c_, std::string const &p) : c(c_), prop(p), iter_prop(p == "C03"), struct_prop(p != "C03") {}
     ~TreeSim()
     {
-        if (pool) { SIM_UNPOISON(pool, sizeof(Entry) * N); free(pool); }
+        if (pool) { SIM_UNPOISON(pool, sizeof(Entry) * N); if (map_base) munmap(map_base, map_len); else free(pool); }
     }
+    void *map_base = nullptr; size_t map_len = 0;
     std::string nm(char const *f) const { return std::string(T::pfx()) + f; }
     int id_of(Node const *p) const
     {
@@ -628,12 +631,27 @@ template <class T> struct TreeSim
     // ------------------------------------------------------------ interpreter
     void exec(Plan const &p)
     {
-        N = (size_t)std::max<int64_t>(1, std::min<int64_t>(200000, p.knob("nodes", 32)));
-        U = (int)std::max<int64_t>(1, std::min<int64_t>(100000, p.knob("universe", 16)));
+        N = (size_t)std::max<int64_t>(1, std::min<int64_t>(400000, p.knob("nodes", 32)));
+        U = (int)std::max<int64_t>(1, std::min<int64_t>(400000, p.knob("universe", 16)));
         nclients = (int)std::max<int64_t>(1, std::min<int64_t>(4, p.knob("clients", 1)));
         g_cmp_style = (int)(p.knob("cmpstyle", 0) % 3);
         check_every = (size_t)std::max<int64_t>(1, p.knob("check_every", 1));
-        if (posix_memalign((void **)&pool, 64, sizeof(Entry) * N) != 0) abort();
+        if (p.knob("straddle", 0) && N <= 4096)
+        { // address-space personality: the pool straddles a 4 GiB boundary so that one node sits at an address whose low 32
+          // bits are zero and its neighbours differ from each other in bit 32 - where a pointer squeezed through 32 bits breaks
+            uintptr_t const B = (uintptr_t)0x5A00 << 32;
+            size_t const j = N / 2;
+            uintptr_t const want = B - j * sizeof(Entry) - offsetof(Entry, link);
+            uintptr_t const start = want & ~(uintptr_t)4095;
+            size_t const len = ((want - start) + sizeof(Entry) * N + 4095) & ~(size_t)4095;
+#ifndef MAP_FIXED_NOREPLACE
+#define MAP_FIXED_NOREPLACE 0x100000
+#endif
+            void *m = mmap((void *)start, len, PROT_READ | PROT_WRITE, MAP_PRIVATE | MAP_ANONYMOUS | MAP_FIXED_NOREPLACE, -1, 0);
+            if (m != MAP_FAILED && (uintptr_t)m == start) { map_base = m; map_len = len; pool = (Entry *)want; c.st.add("probe.pool_straddles_4GiB_boundary"); }
+            else if (m != MAP_FAILED) munmap(m, len);
+        }
+        if (!pool && posix_memalign((void **)&pool, 64, sizeof(Entry) * N) != 0) abort();
         memset(pool, 0xCD, sizeof(Entry) * N);
         resident.assign(N, 0); inserted_at.assign(N, 0);
         for (size_t i = 0; i < N; ++i) { pool[i].id = (int)i; pool[i].key = -1; poison((int)i); }
@@ -701,6 +719,13 @@ template <class T> struct TreeSim
         }
         if (c.ok() && !precond_failed && check_every > 1) check_struct("end-of-history", true);
         // end of history: always iterate and tear (C03), and leave nothing resident
+        if (c.ok() && !precond_failed && p.knob("deep", 0))
+        { // every key of the deep monotone tree must be found, through all three ways of passing the key
+            c.opi = (int)p.ops.size();
+            c.st.add("probe.deep_tree_every_key_looked_up");
+            { size_t deepest = 0; for (size_t i = 0; i < N; i += 1) if (resident[i]) { size_t d = 0; for (Node *x = nd((int)i); x; x = T::parent(x)) ++d; if (d > deepest) deepest = d; } c.logf("deep tree: %zu elements, %zu levels\n", model.size(), deepest); if (deepest > 32) c.st.add("probe.deep_tree_more_than_32_levels"); }
+            for (int key = 0; key < U && c.ok(); ++key) do_search(key, key % 101 == 0 ? 1 : key % 103 == 0 ? 2 : 0);
+        }
         if (c.ok() && !precond_failed && iter_prop)
         {
             c.opi = (int)p.ops.size();
@@ -758,6 +783,15 @@ struct TreeEngine : Engine
             o.client = (int)r.below(4);
             for (int k = 0; k < 4; ++k) o.a[k] = (int64_t)r.below(100000);
             if (big && i == 0) { o.kind = T_BURST; o.a[0] = (int64_t)r.below(3); o.a[2] = 0; } // ascending / descending / zig-zag fill
+            p.ops.push_back(o);
+        }
+        if (!big) p.set("straddle", r.chance(1, 5)); // drawn last: the plans of earlier versions keep their meaning
+        if (tier && prop != "C03" && r.chance(1, 100000))
+        { // thorough tier only: a monotone fill deep enough for a red-black tree to exceed 32 levels (2^18 ascending keys give
+          // 34), followed by a lookup of every key
+            p.ops.clear();
+            p.set("nodes", 300000); p.set("universe", 300000); p.set("check_every", 65536); p.set("clients", 1); p.set("straddle", 0); p.set("deep", 1);
+            Op o; o.kind = T_BURST; o.client = 0; o.a[0] = 0; o.a[1] = 0; o.a[2] = 0; o.a[3] = 0;
             p.ops.push_back(o);
         }
         return p;
